@@ -32,8 +32,9 @@ BISECT_ANY = BISECT_RIGHT | {"bisect.bisect_left"}
 
 def bisect_call(t: T, names) -> Optional[T]:
     """bisect(addresses, x) -> x"""
-    if t.op == "call" and t.a[0].op == "global" and t.a[0].a[0] in names and len(t.a[1]) == 2 and t.a[1][0] == ADDRS:
-        return t.a[1][1]
+    if t.op == "call" and t.a[0].op == "global" and t.a[0].a[0] in names and t.a[1][:1] == (ADDRS,) and (
+            len(t.a[1]) == 2 or (len(t.a[1]) == 3 and t.a[1][2] == const(0))) and not t.a[2]:
+        return t.a[1][1]            # (lo=0 is the default)
     return None
 
 
@@ -138,7 +139,17 @@ def check(repo: Repo, run: Run) -> None:
             if w_.startswith("_") and not w_.startswith("__") and _only_from(w_, part_of_insert):
                 part_of_insert.add(w_)
                 changed = True
-    ok = bool(writers) and set(writers) <= part_of_insert and not pkrec_writers
+    # a private helper that insert_image runs but others call too (`_place_image(address, uuid, floor)` from a bulk path): the
+    # writes are the same code, what the other callers hand it is not judged by these rules - undecided, not a violation
+    shared = set()
+    ii_names = {x.attr for x in _ast.walk(cp.methods["insert_image"]) if isinstance(x, _ast.Attribute)} if "insert_image" in cp.methods else set()
+    for w_ in sorted(set(writers) - part_of_insert):
+        if w_.startswith("_") and not w_.startswith("__") and w_ in ii_names:
+            shared.add(w_)
+    if shared and set(writers) <= part_of_insert | shared and not pkrec_writers:
+        run.floor_failures.append(f"C15/R1: the image lists are written by {sorted(shared)}, a helper of insert_image that other "
+                                  f"methods call as well: whether those calls keep the lists parallel and sorted is not decided")
+    ok = bool(writers) and set(writers) <= part_of_insert | shared and not pkrec_writers
     run.ob("R1", MOD, "CallstacksParser", "only insert_image writes the image lists", ok,
            f"the image lists are written by {sorted(writers)} {[n for n, _ in pkrec_writers]}; only insert_image may, otherwise the "
            f"two lists stop being parallel / sorted", facts={"writers": sorted(writers)})
@@ -217,6 +228,14 @@ def check(repo: Repo, run: Run) -> None:
                 cases.append((pc, frame_args(t), comps[0].lineno))
         unfold(comp.a[1], [])
         one_pass = True
+    if not one_pass:
+        opaque = [c for c in rec.calls if outer[0].id in c.loops and trace in c.args and c.func.op not in ("builtin", "global", "class", "func")
+                  and not (c.func.op == "attr" and c.func.a[0] == SELF)]
+        if opaque:
+            # the trace is handed to a callable picked at run time (a table of consumers kept on the object): what that
+            # callable does with the sampled frames is not visible here
+            raise AnalysisError(f"feed_generator hands each trace to {sym.pretty(opaque[0].func)[:80]}, a callable chosen at run time: "
+                                f"how the frames are built is not decided")
     run.ob("R4", MOD, "CallstacksParser.feed_generator", "one pass over the sampled frames in order", one_pass,
            "feed_generator does not build the frames by one loop / comprehension over trace.cs_frames, in order", line=fg.lineno)
     if not one_pass:
